@@ -40,7 +40,7 @@ def gen_case(ch, params):
         threads[str(t)] = ops
     nd = ch.pick((0, 8, 40, 120))
     return {'threads': threads, 'addrs': [], 'decisions': bytes(ch.below(256) for _ in range(nd)).hex(), 'spurious': 0,
-            'imported': ch.below(3) == 0}
+            'imported': ch.below(3) == 0, 'ndebug': ch.below(4) == 0}
 
 
 def evaluate(case):
@@ -91,26 +91,27 @@ int main(int argc, char** argv) {
 _tsan = {}
 
 
-def tsan_binary(imported=False):
-    if imported in _tsan and os.path.exists(_tsan[imported]):
-        return _tsan[imported]
+def tsan_binary(imported=False, ndebug=False):
+    key = (imported, ndebug)
+    if key in _tsan and os.path.exists(_tsan[key]):
+        return _tsan[key]
     d = cexec.new_dir('tg')
     tr = cexec.translate(wasm.encode(sched.harness_module(imported)), d, 'm', (), 'plain')
     if tr.rc != 0:
         raise cexec.InfraError('translate failed')
     open(os.path.join(d, 'drv.c'), 'w').write(TSAN_DRIVER)
-    cmd = ['clang', '-O1', '-g', '-w', '-fsanitize=thread'] + (['-DVF_IMPORTED_MEMORY=%d' % sched.MAXPAGES] if imported else []) + ['-DWASM_THREADS_PTHREADS', '-I', os.path.join(cexec.REPO, 'w2c2'),
+    cmd = ['clang', '-O1', '-g', '-w', '-fsanitize=thread'] + (['-DVF_IMPORTED_MEMORY=%d' % sched.MAXPAGES] if imported else []) + (['-DNDEBUG'] if ndebug else []) + ['-DWASM_THREADS_PTHREADS', '-I', os.path.join(cexec.REPO, 'w2c2'),
            '-I', os.path.join(cexec.REPO, 'futex'), 'drv.c', 'm.c'] + [os.path.join(cexec.REPO, 'futex', f) for f in cexec.FUTEX_SRCS] + \
         ['-o', 'tg', '-lpthread', '-lm']
     r = cexec.run(cmd, cwd=d)
     if r.returncode != 0:
         raise cexec.InfraError('building the TSan grow harness failed: %s' % r.stderr.decode(errors='replace')[-1200:])
-    _tsan[imported] = os.path.join(d, 'tg')
-    return _tsan[imported]
+    _tsan[key] = os.path.join(d, 'tg')
+    return _tsan[key]
 
 
 def run_tsan(case):
-    exe = tsan_binary(bool(case.get('imported')))
+    exe = tsan_binary(bool(case.get('imported')), bool(case.get('ndebug')))
     env = dict(os.environ)
     env['TSAN_OPTIONS'] = 'exitcode=96:report_thread_leaks=0'
     try:
@@ -130,7 +131,8 @@ def task(wid, seed, params):
     if params.get('tsan'):
         for ci in range(params['ncases']):
             ch = Chooser(seed * 1000003 + ci)
-            case = {'kind': 'tsan', 'T': ch.pick((2, 4, 6, 8)), 'N': ch.pick((200, 2000, 20000)), 'imported': bool(ci % 2)}
+            case = {'kind': 'tsan', 'T': ch.pick((2, 4, 6, 8)), 'N': ch.pick((200, 2000, 20000)), 'imported': bool(ci % 2),
+                    'ndebug': bool((ci // 2) % 2)}
             try:
                 bad = run_tsan(case)
             except cexec.InfraError as e:
@@ -161,6 +163,8 @@ def task(wid, seed, params):
             for c in classes:
                 res['classes'][c] += 1
             res['classes']['imported_shared_memory' if case.get('imported') else 'defined_shared_memory'] += 1
+            if case.get('ndebug'):
+                res['classes']['compiled_with_NDEBUG'] += 1
             if classes & {'several_successful_grows', 'preempted_between_read_and_lock', 'failing_grow'}:
                 res['nontrivial'].add(f1.hx(repr(case)))
             if ci < 1 and si < 2:
